@@ -16,7 +16,7 @@ pub fn def() -> PropDef {
     PropDef {
         id: "C17",
         level: "model_checking",
-        rule: "(A) every registration sequence of length <= d over 7 peers on one document; (B) every (state, event) edge of the complete state graph of one document (all 3620 ordered lists of <= 5 distinct peers out of 7, each built canonically, x 7 registrations), the successor compared with the canonically built successor state; (C) two documents pre-filled to capacity plus an unknown document: every sequence of length <= d2 over {register peer p on doc i, register on unknown doc}; (D) reopen of a file-backed store at every prefix of every sequence of (A) up to length 4; (E) every sequence of length <= d3 over {register peer 1|2, create, remove} x {a document that exists, a document that does not}: a registration must fail exactly while the document does not exist (never created or removed), fail without effect, and a re-created document starts with an empty list (memory, and file-backed with a reopen at the end); the hook clock yields strictly increasing nanos; oracle = a Vec MRU of capacity 5; non-trivial = the sequence re-registers a peer or exceeds the capacity",
+        rule: "(A) every registration sequence of length <= d over 7 peers on one document, and every sequence one step shorter over 7 peers plus the question (get_sync_peers asked in the middle of the history); (B) every (state, event) edge of the complete state graph of one document (all 3620 ordered lists of <= 5 distinct peers out of 7, each built canonically, x 7 registrations), the successor compared with the canonically built successor state; (C) two documents pre-filled to capacity plus an unknown document: every sequence of length <= d2 over {register peer p on doc i, register on unknown doc}; (D) reopen of a file-backed store at every prefix of every sequence of (A) up to length 4; (E) every sequence of length <= d3 over {register peer 1|2, create, remove} x {a document that exists, a document that does not}: a registration must fail exactly while the document does not exist (never created or removed), fail without effect, and a re-created document starts with an empty list (memory, and file-backed with a reopen at the end); the hook clock yields strictly increasing nanos; oracle = a Vec MRU of capacity 5; non-trivial = the sequence re-registers a peer or exceeds the capacity",
         assumptions: &[
             "the nanosecond clock is strictly increasing (hook); equal nanos / clock regressions are outside the statement",
         ],
@@ -91,6 +91,14 @@ fn run_ops(
     let doc = |d: u8| if d < 2 { ns_id(d) } else { unknown_doc() };
     let n = pre.len() + ops.len();
     for (i, (d, p)) in pre.iter().chain(ops.iter()).enumerate() {
+        if *d == 3 {
+            // the question asked in the middle of a history (a question is an operation too: it
+            // may leave something behind that a later answer is built from)
+            for dd in [0u8, 1] {
+                let _ = get(&mut sut, &doc(dd));
+            }
+            continue;
+        }
         let res = sut.store.register_useful_peer(doc(*d), peer(*p));
         if *d < 2 {
             if let Err(e) = &res {
@@ -153,7 +161,7 @@ fn record(
     let nt = {
         let mut per_doc: [Vec<u8>; 3] = Default::default();
         let mut nt = false;
-        for (d, p) in pre.iter().chain(ops.iter()) {
+        for (d, p) in pre.iter().chain(ops.iter()).filter(|(d, _)| *d < 3) {
             let l = &mut per_doc[*d as usize];
             if l.contains(p) {
                 nt = true;
@@ -349,6 +357,21 @@ fn run(ctx: &Ctx, report: &mut Report) {
                 return;
             }
             let ops: Vec<Op> = seq.iter().map(|&p| (0u8, p as u8)).collect();
+            record(report, "A", &[], &ops, None, ordinal);
+        });
+    }
+    // (A') the same with the question (get_sync_peers) as an eighth symbol, for the sequences that
+    // ask at least once before the end
+    for depth in 2..=(if quick { 5 } else { 6 }) {
+        for_each_sequence(8, depth, |seq| {
+            if !seq[..depth - 1].contains(&7) || seq[depth - 1] == 7 {
+                return;
+            }
+            ordinal += 1;
+            if !ctx.mine(ordinal) {
+                return;
+            }
+            let ops: Vec<Op> = seq.iter().map(|&p| if p == 7 { (3u8, 0u8) } else { (0u8, p as u8) }).collect();
             record(report, "A", &[], &ops, None, ordinal);
         });
     }
